@@ -2,6 +2,7 @@ package props
 
 import (
 	"fmt"
+	"regexp"
 	"go/constant"
 	"go/token"
 	"go/types"
@@ -158,6 +159,7 @@ func runC07(c *Ctx) {
 	r.Rule("send-sites", "WriteTo call sites on the session connection", 11)
 	r.Rule("layout", "constant header bytes and length fields of the buffer at WriteTo", 60)
 	r.Rule("icmp-message", "ICMP type/code and fixed NDP option header of every message handed to icmp4SendPacket/icmp6SendPacket", 10)
+	r.Rule("dst-mac", "Ethernet destination of every emitted frame is the MAC the caller passed", 11)
 	r.Rule("src-mac", "Ethernet source of every emitted frame is NICInfo.HostAddr4.MAC", 11)
 	r.Rule("checksum-order", "checksums are computed after the last write they cover", 4)
 	r.Rule("hop-limit", "hop limit 255 for link-local destinations", 1)
@@ -736,6 +738,17 @@ func checkSrcMAC(c *Ctx, fns []*ssa.Function) {
 			if !ok {
 				st = core.Violated
 			}
+			// destination: the MAC the caller asked for (a parameter, a field of an Addr parameter/variable, or a
+			// package-level address constant) — never recomputed inside the sender
+			dn := norm(args[3])
+			dOK := regexp.MustCompile(`^(arg\d+|arg\d+\.MAC|local\(\w+\)\.MAC|[A-Za-z0-9_]+\.MAC|EthBroadcast|EthernetBroadcast)$`).MatchString(dn)
+			dst := core.Proved
+			if !dOK {
+				dst = core.Violated
+			}
+			dkey := strings.TrimSuffix(kg.Key("dst-mac "+core.FuncName(fn)), "#0")
+			c.R.Add(core.Obligation{Rule: "dst-mac", Key: dkey, Func: core.FuncName(fn), Pos: c.P.Pos(core.PosOf(site.(ssa.Instruction))), Status: dst,
+				Basis: "Ethernet destination: " + dn, Detail: "the Ethernet destination of the emitted frame is not the address the caller passed: " + dn + " (a frame meant for one station can reach others)"})
 			key := strings.TrimSuffix(kg.Key("src-mac "+core.FuncName(fn)), "#0")
 			c.R.Add(core.Obligation{Rule: "src-mac", Key: key, Func: core.FuncName(fn), Pos: c.P.Pos(core.PosOf(site.(ssa.Instruction))), Status: st,
 				Basis: "Ethernet source: " + why, Detail: "the Ethernet source address of the emitted frame does not always originate from NICInfo.HostAddr4.MAC: " + why,
